@@ -35,7 +35,7 @@ CONSTANTS Pods,     \* pod names (naturals >= 1)
           Enis,     \* interface ids (naturals >= 1)
           Enforce   \* subset of {"C02", "C03", "C08"}
 
-G(p, clause) == p \notin Enforce \/ clause
+G(p, clause) == IF p \in Enforce THEN clause ELSE TRUE
 
 NoEni == [on |-> FALSE, att |-> FALSE, type |-> "", rdma |-> FALSE, primary |-> 0, v4 |-> {}, v6 |-> {}]
 NoPod == [u |-> 0, live |-> FALSE, rdma |-> FALSE, r4 |-> 0, r6 |-> 0]
